@@ -108,6 +108,23 @@ def check(run, prog, tier):
             a = calls[0].args
             okf = a[:1] == (("attr", cme, "data"),) and ("starred", ("attr", cme, "args")) in a and tuple(calls[0].kwargs) == (("**", ("attr", cme, "kwargs")),)
             run.ob("U4", f"{ht.qual}:flushes-the-collected-list-once", okf, loc(ht), f"callback({', '.join(show(x) for x in a)}, **{[show(v) for k, v in calls[0].kwargs]})")
+    # ... and the timeout routine is the only way out: any other method of the collector that hands the list over has to
+    # obey the same two-state discipline (done first), or the collector stays open after its list was transmitted and
+    # whatever is appended afterwards waits for a timer that will not come
+    for name, fi2 in sorted(prog.cls(COL).methods.items()):
+        if fi2 is ht or name == "__init__":
+            continue
+        for p in eng.paths(fi2, recv=COL):
+            calls = [e for e in p.events if e.kind == "call" and e.fterm == ("attr", cme, "callback")]
+            if not calls:
+                continue
+            run.paths += 1
+            sts = [e for e in p.events if e.kind == "store" and e.attrname == "done" and e.value == const(True)]
+            ok = bool(sts) and sts[0].seq < calls[0].seq
+            run.ob("U1", f"{fi2.qual}:done-before-flush", ok, loc(fi2, calls[0].node),
+                   f"{name}() marks the collector done before handing its list over" if ok else
+                   f"{name}() hands the collected list to the callback without marking the collector done: it stays registered and open, "
+                   "entries appended afterwards are never transmitted")
     for p in eng.paths(app, recv=COL):
         run.paths += 1
         d = [v for c, v, _, _ in p.conds if c == ("attr", cme, "done")]
@@ -173,6 +190,12 @@ def check(run, prog, tier):
     run.ob("U1", f"{app.qual}:only-queue_send-appends", callers == {qs.qual}, loc(app), f"append is called by {sorted(callers)}")
     canc = prog.lookup_method(COL, "cancel")
     cc = {fi.qual for fi, r, e in scan.callers_of(canc.qual)} if canc else set()
+    # the timer handle itself: cancelled nowhere but in cancel()
+    for fi, r, e in scan.all():
+        if e.kind == "call" and e.attrname == "cancel" and e.recv is not None and e.recv[0] == "attr" and fi is not canc:
+            ty = scan.eng.typer.type_of(e.recv[1])
+            if (e.recv[1] == cme or ty == ("cls", COL)) and prog.lookup_method(COL, e.recv[2]) is None:
+                cc.add(f"{fi.qual} (cancels .{e.recv[2]})")
     run.ob("U2", f"{COL}:nobody-cancels-a-collector", not cc, loc(canc or init), f"cancel() callers: {sorted(cc) or 'none'} (a cancelled collector would drop its entries)")
     # other writers of send_queues
     w = {fi.qual for fi, r, e in scan.all() if (e.kind == "store" and e.target is not None and contains(e.target, lambda s: s[0] == "attr" and s[2] == "send_queues")
